@@ -191,12 +191,21 @@ theorem ucalls_actions (l : Log) : ucalls (actions l) = ucalls l := by
 theorem ucalls_probe (x : St) (k : Ctx) : ucalls (probe x k).log = ucalls k.log := by
   cases x <;> simp [probe]
 
+theorem ucalls_probeNone (x : St) (k : Ctx) : ucalls (probeNone x k).log = ucalls k.log := by
+  simp [probeNone]
+
+theorem ucalls_probeAny (c : Chart) (x : St) (k : Ctx) : ucalls (probeAny c x k).log = ucalls k.log := by
+  unfold probeAny
+  split
+  · exact ucalls_probeNone x k
+  · exact ucalls_probe x k
+
 theorem ucalls_callExit (c : Chart) (x : St) (k : Ctx) : ucalls (callExit c x k).2.log = ucalls k.log := by
   cases x with
   | nil => rfl
   | cons a p =>
     unfold callExit
-    by_cases h : c.exitH (a :: p) <;> simp [h]
+    by_cases h : c.exitH (a :: p) <;> by_cases h' : c.fall (a :: p) <;> simp [h, h']
 
 theorem ucalls_exitStep (c : Chart) (x : St) (k : Ctx) : ucalls (exitStep c x k).log = ucalls k.log := by
   unfold exitStep
@@ -229,12 +238,14 @@ theorem ucalls_exitWalk (c : Chart) (s : St) : ∀ (t : St) (k k' : Ctx),
     rw [exitWalk] at h
     split at h
     · cases h; rfl
-    · have := ih _ _ h
-      rw [this]
-      exact ucalls_exitStep c (a :: p) k
+    · split at h
+      · cases h
+      · have := ih _ _ h
+        rw [this]
+        exact ucalls_exitStep c (a :: p) k
 
-theorem ucalls_eLoop (S : St) : ∀ (x : St) (tp : List St) (mx ip : Nat) (k : Ctx) (o : EOut),
-    eLoop S x tp mx ip k = some o → ucalls o.k.log = ucalls k.log := by
+theorem ucalls_eLoop (c : Chart) (S : St) : ∀ (x : St) (tp : List St) (mx ip : Nat) (k : Ctx) (o : EOut),
+    eLoop c S x tp mx ip k = .ok o → ucalls o.k.log = ucalls k.log := by
   intro x
   induction x with
   | nil =>
@@ -250,7 +261,10 @@ theorem ucalls_eLoop (S : St) : ∀ (x : St) (tp : List St) (mx ip : Nat) (k : C
     · cases h
     · split at h
       · cases h; rfl
-      · rw [ih _ _ _ _ _ h, ucalls_probe]
+      · simp only at h
+        split at h
+        · cases h
+        · rw [ih _ _ _ _ _ h, ucalls_probe]
 
 theorem ucalls_gLoop (c : Chart) (tp : List St) (ip : Nat) : ∀ (t : St) (k : Ctx) (r : Int × Ctx),
     gLoop c tp ip t k = .ok r → ucalls r.2.log = ucalls k.log := by
@@ -259,13 +273,16 @@ theorem ucalls_gLoop (c : Chart) (tp : List St) (ip : Nat) : ∀ (t : St) (k : C
   | nil => intro k r h; rw [gLoop] at h; cases h
   | cons a p ih =>
     intro k r h
-    cases hsc : scan p tp ip with
-    | some iq =>
-      simp only [gLoop, hsc] at h
-      cases h; exact ucalls_exitStep c (a :: p) k
-    | none =>
-      simp only [gLoop, hsc] at h
-      rw [ih _ _ h]; exact ucalls_exitStep c (a :: p) k
+    cases hfa : c.fall (a :: p) with
+    | true => simp only [gLoop, hfa, if_true] at h; cases h
+    | false =>
+      cases hsc : scan p tp ip with
+      | some iq =>
+        simp only [gLoop, hsc, hfa, Bool.false_eq_true, if_false] at h
+        cases h; exact ucalls_exitStep c (a :: p) k
+      | none =>
+        simp only [gLoop, hsc, hfa, Bool.false_eq_true, if_false] at h
+        rw [ih _ _ h]; exact ucalls_exitStep c (a :: p) k
 
 theorem ucalls_enterDown (tp : List St) : ∀ (ip : Nat) (k : Ctx),
     ucalls (enterDown tp ip k).log = ucalls k.log := by
@@ -274,9 +291,9 @@ theorem ucalls_enterDown (tp : List St) : ∀ (ip : Nat) (k : Ctx),
   | zero => intro k; rw [enterDown, ucalls_callEntry]
   | succ n ih => intro k; rw [enterDown, ih, ucalls_callEntry]
 
-theorem ucalls_climb (goal : St) : ∀ (x : St) (tp : List St) (mx ip : Nat) (k : Ctx)
+theorem ucalls_climb (c : Chart) (goal : St) : ∀ (x : St) (tp : List St) (mx ip : Nat) (k : Ctx)
     (ip' : Nat) (tp' : List St) (mx' : Nat) (k' : Ctx),
-    climb goal x tp mx ip k = .done ip' tp' mx' k' → ucalls k'.log = ucalls k.log := by
+    climb c goal x tp mx ip k = .done ip' tp' mx' k' → ucalls k'.log = ucalls k.log := by
   intro x
   induction x with
   | nil =>
@@ -292,7 +309,9 @@ theorem ucalls_climb (goal : St) : ∀ (x : St) (tp : List St) (mx ip : Nat) (k 
     · cases h; rfl
     · split at h
       · cases h
-      · rw [ih _ _ _ _ _ _ _ _ h, ucalls_probe]
+      · split at h
+        · cases h
+        · rw [ih _ _ _ _ _ _ _ _ h, ucalls_probe]
 
 theorem ucalls_drill (c : Chart) (g : Cfg) : ∀ (fuel : Nat) (t : St) (tp : List St) (mx : Nat) (k : Ctx)
     (r : St × Ctx), drill c g fuel t tp mx k = .ok r → ucalls r.2.log = ucalls k.log := by
@@ -314,10 +333,10 @@ theorem ucalls_drill (c : Chart) (g : Cfg) : ∀ (fuel : Nat) (t : St) (tp : Lis
           · split at h <;> cases h
           · cases h
           · rename_i ip tp2 mx2 k3 hcl
-            have h1 := ucalls_climb _ _ _ _ _ _ _ _ _ _ hcl
+            have h1 := ucalls_climb _ _ _ _ _ _ _ _ _ _ _ hcl
             rw [ih _ _ _ _ _ h, ucalls_enterDown]
             simp only at h1 ⊢
-            rw [h1, ucalls_probe]; exact hci
+            rw [h1, ucalls_probeAny]; exact hci
 
 theorem ucalls_trans (c : Chart) (tp0 : List St) (mx : Nat) (T S : St) (k : Ctx) (o : TOut)
     (h : trans_ c tp0 mx T S k = .ok o) : ucalls o.k.log = ucalls k.log := by
@@ -326,18 +345,25 @@ theorem ucalls_trans (c : Chart) (tp0 : List St) (mx : Nat) (T S : St) (k : Ctx)
   · cases h; exact ucalls_callExit c S k
   · simp only at h
     split at h
+    · cases h
+    split at h
     · cases h; exact ucalls_probe T k
     · split at h
+      · cases h
+      split at h
       · cases h; simp only [ucalls_callExit, ucalls_probe]
       · split at h
         · cases h; simp only [ucalls_callExit, ucalls_probe]
         · split at h
           · cases h
+          split at h
+          · cases h
+          · cases h
           · rename_i found ip tp2 mx2 k4 he
             have hk4 : ucalls k4.log = ucalls k.log := by
               split at he
               · cases he; simp only [ucalls_probe]
-              · have := ucalls_eLoop _ _ _ _ _ _ _ he
+              · have := ucalls_eLoop _ _ _ _ _ _ _ _ he
                 simp only at this
                 rw [this]; simp only [ucalls_probe]
             split at h
@@ -367,13 +393,19 @@ theorem ucalls_searchLoop (c : Chart) (n : Nat) : ∀ (cur : St) (k : Ctx),
     | handled => right; simp [searchLoop, offers, hr]
     | none => left; simp [searchLoop, hr]
     | unhandled =>
-      rcases ih { temp := p, log := k.log ++ [⟨a :: p, .user n⟩] ++ [⟨a :: p, .empty⟩] } with h | h
-      · left; simpa only [searchLoop, hr] using h
-      · right; simp only [searchLoop, offers, hr]; rw [h]; simp
+      cases hfa : c.fall (a :: p) with
+      | true => left; simp [searchLoop, hr, hfa]
+      | false =>
+        rcases ih { temp := p, log := k.log ++ [⟨a :: p, .user n⟩] ++ [⟨a :: p, .empty⟩] } with h | h
+        · left; simpa only [searchLoop, hr, hfa, Bool.false_eq_true, if_false] using h
+        · right; simp only [searchLoop, offers, hr, hfa, Bool.false_eq_true, if_false]; rw [h]; simp
     | pass =>
-      rcases ih { temp := p, log := k.log ++ [⟨a :: p, .user n⟩] } with h | h
-      · left; simpa only [searchLoop, hr] using h
-      · right; simp only [searchLoop, offers, hr]; rw [h]; simp
+      cases hfa : c.fall (a :: p) with
+      | true => left; simp [searchLoop, hr, hfa]
+      | false =>
+        rcases ih { temp := p, log := k.log ++ [⟨a :: p, .user n⟩] } with h | h
+        · left; simpa only [searchLoop, hr, hfa, Bool.false_eq_true, if_false] using h
+        · right; simp only [searchLoop, offers, hr, hfa, Bool.false_eq_true, if_false]; rw [h]; simp
 
 /-- **key lemma for C20**: the user-signal calls of a successful dispatch are exactly the offers of
 the spec; everything `dispatch` does after the search (exit walk, `trans_`, entries, init drill)
@@ -964,7 +996,8 @@ def qc1 : QChart :=
           else .pass
         init := fun _ => none
         exitH := fun _ => true
-        depth := 3 },
+        depth := 3
+        fall := fun _ => false },
     eff := fun s sig =>
       if s = [1] ∧ sig = .user 0 then [.fifo 1]
       else if s = [3, 1] ∧ sig = .entry then [.scribble 7]
